@@ -285,6 +285,8 @@ def run(ctx, rep):
         if n in mut_set and not cmatch(g.term(n), r"IndexMut<I>>::index_mut$|slice::<impl \[T\]>::(first_mut|last_mut|get_mut|iter_mut)$|ops::DerefMut>?::deref_mut$|Vec::<T, A>::(as_mut_slice|iter_mut)$"):
             le1 = False
         for o, v in norm_learn(learn):
+            if c04.len_gt1_contradiction(g, o, v, le1):
+                return None
             if c04.len_le1_fact(g, o, v) or c04.files_empty_fact(g, origin_call(o), v):
                 le1 = True
         return le1
@@ -333,6 +335,8 @@ def run(ctx, rep):
         if n in wset_:
             fresh = True
         for o, v in norm_learn(learn):
+            if c04.len_gt1_contradiction(g, o, v, le1):
+                return None
             if c04.len_le1_fact(g, o, v):
                 le1 = True
             cn = origin_call(o)
